@@ -1469,6 +1469,36 @@ T:
 `}}},
 	}
 	var out []c10Gen
+	// programs with exactly ONE annotation: every keyword on every kind of declaration it may stand on, alone in the
+	// module (whatever index or registry a checker builds starts empty and receives this one entry first)
+	for _, one := range []struct{ kw, line string }{
+		{"immutable", "// @immutable"}, {"constructor", "// @constructor New"}, {"testonly", "// @testonly"},
+		{"packageonly", "// @packageonly x"}, {"packageonly-bare", "// @packageonly"}, {"implements", "// @implements &Doer"}, {"mutable", "// @mutable"},
+	} {
+		for _, site := range []string{"type", "func", "ptr-method", "value-method", "field", "generic-method"} {
+			at := func(k string) string {
+				if k == site {
+					return one.line + "\n"
+				}
+				return ""
+			}
+			atField := ""
+			if site == "field" {
+				atField = "\t" + one.line + "\n"
+			}
+			d := "package d\n\ntype Doer interface{ Do() int }\n\n" +
+				at("type") + "type T struct {\n" + atField + "\tF int\n\tS []int\n}\n\n" +
+				at("func") + "func New() *T { return &T{S: make([]int, 1)} }\n\n" +
+				at("ptr-method") + "func (t *T) Set(v int) { t.F = v; t.S[0] = v; t.F++ }\n\n" +
+				at("value-method") + "func (t T) Get() int { return t.F }\n\n" +
+				"type G[V any] struct{ X V }\n\n" +
+				at("generic-method") + "func (g *G[V]) Put(v V) { g.X = v }\n\n" +
+				"func useD() int {\n\tt := T{}\n\tt.F = 1\n\tp := new(T)\n\tp.Set(2)\n\tvar g G[int]\n\tg.Put(3)\n\treturn t.Get() + New().Get()\n}\n\nvar _ = useD\n"
+			u := "package u\n\nimport \"PREFIX/d\"\n\nfunc useU() int {\n\tt := d.T{}\n\tt.F = 1\n\tt.F += 2\n\tt.S = nil\n\tp := new(d.T)\n\tp.Set(2)\n\tvar z d.T\n\tvar g d.G[string]\n\tg.Put(\"x\")\n\tf := p.Set\n\tf(3)\n\treturn t.Get() + z.Get() + d.New().Get()\n}\n\nvar _ = useU\n"
+			ut := "package u\n\nimport \"PREFIX/d\"\n\nfunc useT() int { return d.New().Get() }\n\nvar _ = useT\n"
+			progs = append(progs, c10P2Prog{"single-annotation-" + one.kw + "-on-" + site, []c10P2File{{"d", "d.go", d}, {"u", "u.go", u}, {"u", "u_test.go", ut}}})
+		}
+	}
 	for i, pg := range progs {
 		id := fmt.Sprintf("p2_%02d", i)
 		pre := c10Prefix(id)
